@@ -5,6 +5,9 @@ Import ListNotations.
 Require Import LV.Files.NumFmtModel.
 Open Scope Z_scope.
 Ltac Zify.zify_post_hook ::= Z.div_mod_to_equations.
+Arguments digit_char _ : simpl never.
+Arguments is_digit _ : simpl never.
+Arguments digit_val _ : simpl never.
 
 Definition lt10 (ds : list nat) : Prop := Forall (fun d => (d < 10)%nat) ds.
 
@@ -17,21 +20,25 @@ Proof. intros d H. do 10 (destruct d as [|d]; [reflexivity|]). lia. Qed.
 Definition starts_nondigit (r : text) : Prop :=
   match r with [] => True | c :: _ => is_digit c = false end.
 
+Lemma span_cons : forall c r,
+  span_digits (c :: r) = if is_digit c then let (a, b) := span_digits r in (c :: a, b) else ([], c :: r).
+Proof. reflexivity. Qed.
+
 Lemma span_digits_chars : forall l r, lt10 l -> starts_nondigit r ->
   span_digits (chars l ++ r) = (chars l, r).
 Proof.
-  induction l as [|d l IH]; intros r Hl Hr; simpl.
-  - destruct r as [|c r]; simpl in *; [reflexivity|]. now rewrite Hr.
-  - inversion Hl; subst. rewrite digit_char_is_digit by assumption.
-    unfold chars in IH. rewrite IH by assumption. reflexivity.
+  induction l as [|d l IH]; intros r Hl Hr.
+  - cbn [chars map app]. destruct r as [|c r]; [reflexivity|]. rewrite span_cons. cbn in Hr. now rewrite Hr.
+  - cbn [chars map app]. rewrite span_cons. inversion Hl; subst. rewrite digit_char_is_digit by assumption.
+    fold (chars l). rewrite IH by assumption. reflexivity.
 Qed.
 
 Lemma num_of_chars_acc : forall l acc, lt10 l ->
   fold_left (fun a c => 10 * a + digit_val c) (chars l) acc =
   fold_left (fun a d => 10 * a + Z.of_nat d) l acc.
 Proof.
-  induction l as [|d l IH]; intros acc Hl; simpl; [reflexivity|].
-  inversion Hl; subst. rewrite digit_char_val by assumption. apply IH; assumption.
+  induction l as [|d l IH]; intros acc Hl; [reflexivity|].
+  cbn [chars map fold_left]. inversion Hl; subst. rewrite digit_char_val by assumption. apply IH; assumption.
 Qed.
 
 Lemma num_of_chars : forall l, lt10 l -> num_of (chars l) = digits_value l.
@@ -44,26 +51,29 @@ Lemma chars_length : forall a, length (chars a) = length a.
 Proof. intros. apply map_length. Qed.
 
 Lemma spaces_nondigit : forall k, starts_nondigit (spaces k).
-Proof. destruct k; simpl; [exact I|reflexivity]. Qed.
+Proof. destruct k; [exact I|reflexivity]. Qed.
 
 Lemma all_blank_spaces : forall k, all_blank (spaces k) = true.
-Proof. induction k; simpl; [reflexivity|assumption]. Qed.
+Proof. induction k; [reflexivity|]. cbn [spaces repeat all_blank forallb]. fold (spaces k). fold (all_blank (spaces k)). now rewrite IHk. Qed.
 
 (* --- the exponent text ------------------------------------------------------------------ *)
 Lemma exp_digits_lt10 : forall a, 0 <= a < 1000 -> lt10 (exp_digits a).
 Proof.
   intros a H. unfold exp_digits, lt10.
   destruct (a <? 10) eqn:E1; [apply Z.ltb_lt in E1|apply Z.ltb_ge in E1].
-  - repeat constructor; lia.
-  - destruct (a <? 100) eqn:E2; [apply Z.ltb_lt in E2|apply Z.ltb_ge in E2]; repeat constructor; lia.
+  - apply Forall_cons; [lia|apply Forall_cons; [lia|apply Forall_nil]].
+  - destruct (a <? 100) eqn:E2; [apply Z.ltb_lt in E2|apply Z.ltb_ge in E2].
+    + apply Forall_cons; [lia|apply Forall_cons; [lia|apply Forall_nil]].
+    + apply Forall_cons; [lia|apply Forall_cons; [lia|apply Forall_cons; [lia|apply Forall_nil]]].
 Qed.
 
 Lemma exp_digits_value : forall a, 0 <= a < 1000 -> digits_value (exp_digits a) = a.
 Proof.
   intros a H. unfold exp_digits, digits_value.
-  destruct (a <? 10) eqn:E1; [apply Z.ltb_lt in E1|apply Z.ltb_ge in E1]; simpl.
-  - lia.
-  - destruct (a <? 100) eqn:E2; [apply Z.ltb_lt in E2|apply Z.ltb_ge in E2]; simpl; lia.
+  destruct (a <? 10) eqn:E1; [apply Z.ltb_lt in E1|apply Z.ltb_ge in E1]; cbn [fold_left].
+  - rewrite !Z2Nat.id by lia. lia.
+  - destruct (a <? 100) eqn:E2; [apply Z.ltb_lt in E2|apply Z.ltb_ge in E2]; cbn [fold_left];
+      rewrite !Z2Nat.id by lia; lia.
 Qed.
 
 Lemma exp_digits_nonempty : forall a, exp_digits a <> [].
@@ -91,7 +101,7 @@ Lemma c_mod3_is_mod : forall t, c_mod3 t = t mod 3.
 Proof. intros t. unfold c_mod3. destruct (0 <=? t) eqn:E; [reflexivity|]. apply Z.leb_gt in E. lia. Qed.
 
 Lemma before_range : forall p ex, (1 <= p)%nat ->
-  0 <= before p ex <= 3 /\ before p ex <= Z.of_nat p /\ (3 <= p -> 1 <= before p ex)%nat /\
+  0 <= before p ex <= 3 /\ before p ex <= Z.of_nat p /\ ((3 <= p)%nat -> 1 <= before p ex) /\
   ((p = 1)%nat -> before p ex = 1).
 Proof.
   intros p ex Hp. unfold before.
@@ -115,9 +125,11 @@ Lemma firstn_skipn_len : forall (ds : list nat) b, (b <= length ds)%nat ->
   firstn (length ds - b) (skipn b ds) = skipn b ds.
 Proof. intros. apply firstn_all2. rewrite skipn_length. lia. Qed.
 
+Lemma In_firstn' : forall (A : Type) (x : A) n l, In x (firstn n l) -> In x l.
+Proof. intros A x n l H. rewrite <- (firstn_skipn n l). apply in_or_app. now left. Qed.
+
 Lemma lt10_firstn : forall ds b, lt10 ds -> lt10 (firstn b ds).
-Proof. intros ds b H. unfold lt10 in *. rewrite Forall_forall in *. intros x Hx. apply H. eapply In_firstn; eauto.
-Unshelve. Qed.
+Proof. intros ds b H. unfold lt10 in *. rewrite Forall_forall in *. intros x Hx. apply H. eapply In_firstn'; eauto. Qed.
 
 Lemma In_skipn : forall (A : Type) (x : A) n l, In x (skipn n l) -> In x l.
 Proof. intros A x n l H. rewrite <- (firstn_skipn n l). apply in_or_app. now right. Qed.
@@ -126,19 +138,19 @@ Lemma lt10_skipn : forall ds b, lt10 ds -> lt10 (skipn b ds).
 Proof. intros ds b H. unfold lt10 in *. rewrite Forall_forall in *. intros x Hx. apply H. eapply In_skipn; eauto. Qed.
 
 (* body = digits with the point moved, then the exponent or blanks; parse it without sign *)
-Lemma parse_body : forall pad ds ex k,
+Lemma parse_body : forall (pad : bool) (ds : list nat) (ex : Z) (k : nat),
   ds <> [] -> lt10 ds -> -990 <= ex <= 990 ->
   let p := length ds in
   let b := Z.to_nat (before p ex) in
   let ex' := ex - (before p ex - 1) in
-  let body := chars (firstn b ds) ++
-    (if (Nat.ltb 0 (p - b)) || (ex' =? 0) then "."%char :: chars (firstn (p - b) (skipn b ds)) else []) ++
-    (if negb (ex' =? 0) then exp_text ex' else if pad then spaces 4 else []) in
+  let body : text := chars (firstn b ds) ++
+    (if (Nat.ltb 0 (p - b)) || (ex' =? 0) then "."%char :: chars (firstn (p - b) (skipn b ds)) else @nil ascii) ++
+    (if negb (ex' =? 0) then exp_text ex' else if pad then spaces 4 else @nil ascii) in
   exists rest,
     (let (ip, r1) := span_digits (body ++ spaces k) in
      let '(fp, r2) := match r1 with
-                      | c :: r => if Ascii.eqb c "."%char then span_digits r else ([], r1)
-                      | [] => ([], r1)
+                      | c :: r => if Ascii.eqb c "."%char then span_digits r else (@nil ascii, r1)
+                      | [] => (@nil ascii, r1)
                       end in
      match ip ++ fp with
      | [] => None
@@ -177,35 +189,37 @@ Proof.
   exists rest.
   destruct ((Nat.ltb 0 (p - b)) || (ex' =? 0)) eqn:Edot.
   - (* the point is printed *)
-    unfold body. rewrite Edot. rewrite Hfs. fold tail.
-    rewrite <- !app_assoc. simpl app.
+    unfold body. rewrite Hfs. fold tail.
+    rewrite <- !app_assoc. cbn [app].
     rewrite span_digits_chars by (auto using lt10_firstn; simpl; reflexivity).
     change (Ascii.eqb "." ".") with true. cbv iota.
     rewrite span_digits_chars by (auto using lt10_skipn).
     rewrite Hcat. destruct (chars ds) eqn:Hc; [congruence|]. rewrite <- Hc.
+    match goal with |- context [parse_exp ?t] => change (parse_exp t) with (parse_exp (tail ++ spaces k)) end.
     rewrite Hpt. rewrite num_of_chars by assumption. rewrite chars_length, skipn_length.
     split; [|split; [exact Hblank|]].
-    + do 2 f_equal. fold p. lia.
+    + do 2 f_equal. fold p. unfold ex'. clearbody p b. lia.
     + destruct (firstn b ds) as [|d0 l0] eqn:Hf0.
       * simpl. eauto.
       * simpl. exists (digit_char d0). eexists. split; [reflexivity|left].
         apply digit_char_is_digit.
-        assert (Hin : In d0 ds) by (apply (In_firstn _ b); rewrite Hf0; now left).
+        assert (Hin : In d0 ds) by (apply (In_firstn' _ d0 b); rewrite Hf0; now left).
         unfold lt10 in Hl. rewrite Forall_forall in Hl. auto.
   - (* no point: all digits before it, exponent not zero *)
     apply orb_false_iff in Edot. destruct Edot as [E1 E2].
     apply Nat.ltb_ge in E1. assert (b = p) by lia.
-    unfold body. rewrite E1. rewrite E2. simpl orb. cbv iota. fold tail.
+    unfold body. fold tail.
     replace (firstn b ds) with ds by (subst b; symmetry; apply firstn_all2; fold p; lia).
-    simpl app at 1. rewrite <- app_assoc.
+    rewrite <- app_assoc. cbn [app].
     rewrite span_digits_chars by auto.
     assert (Htl : exists c r, tail ++ spaces k = c :: r /\ Ascii.eqb c "."%char = false).
     { unfold tail. rewrite E2. simpl. eauto. }
     destruct Htl as (c & r & Htl & Hcd). rewrite Htl, Hcd. rewrite <- Htl.
     rewrite app_nil_r. destruct (chars ds) eqn:Hc; [congruence|]. rewrite <- Hc.
+    match goal with |- context [parse_exp ?t] => change (parse_exp t) with (parse_exp (tail ++ spaces k)) end.
     rewrite Hpt. rewrite num_of_chars by assumption.
     split; [|split; [exact Hblank|]].
-    + do 2 f_equal. simpl length. fold p. lia.
+    + do 2 f_equal. cbn [length]. fold p. unfold ex'. clearbody p b. lia.
     + destruct ds as [|d0 l0]; [congruence|]. simpl. exists (digit_char d0). eexists. split; [reflexivity|left].
       apply digit_char_is_digit. inversion Hl; assumption.
 Qed.
